@@ -43,6 +43,7 @@ def configs_for(tier):
 
 
 def run(chk, tier):
+    from . import c02_sym
     sf = S.Src()
     classify_sites(chk, sf)
     derive_crate_sites(chk, sf)
@@ -78,6 +79,8 @@ def run(chk, tier):
         cross_config(chk, ref, ref_fp, ref_tables, prog, "docs" in feats, "bit-vec" in feats)
         c06.check_writer(chk, prog, prog.config)
         docs_blind_identity(chk, prog, prog.config)
+        # TypeId values (crate hash) change with the feature set: registration order must be the caller's order, never an order of identities
+        c02_sym.check(chk, prog, prog.config, only=set(), helpers=True)
         if "docs" in feats:
             # "docs changes documentation strings only": the docs-gated setters may differ, but only in the docs slot
             c17.transitions(chk, prog, prog.config, True, only=gated_setters(ref, prog))
